@@ -459,13 +459,15 @@ func (w *world) snapshot(r string) snap {
 		panic(err)
 	}
 	o := config.NewPersistOptions(fresh)
-	if err := o.Reload(w.st); err != nil {
+	// through a FRESH core.Storage over the same kv: a newly elected leader is another process, nothing cached inside the serving
+	// leader's Storage object may help (or be disturbed by) this read
+	if err := o.Reload(core.NewStorage(w.kb)); err != nil {
 		panic(err)
 	}
 	sn.Reload = w.readConf(o.GetScheduleConfig(), o.GetReplicationConfig(), o.GetPDServerConfig(), o.GetLabelPropertyConfig(),
 		*o.GetClusterVersion(), o.GetReplicationModeConfig())
 	sn.StRule = "None"
-	if err := w.st.LoadRules(func(k, v string) {
+	if err := core.NewStorage(w.kb).LoadRules(func(k, v string) {
 		var rj ruleJSON
 		if err := json.Unmarshal([]byte(v), &rj); err == nil && rj.GroupID == "pd" && rj.ID == "default" {
 			sn.StRule = ruleCoq(rj.Count, rj.LocationLabels)
@@ -1066,9 +1068,26 @@ func (w *world) runCase(in caseIn, r *rng.R, nops int, malformed bool, useEtcd b
 		}
 		return c
 	}
+	var last op
+	lastFailed := false
 	for k := 0; k < nops; k++ {
 		if k > 0 && r.Pct(7) {
 			step(op{K: "reload"}) // a leader change in the middle of the history
+			lastFailed = false
+			continue
+		}
+		if lastFailed && r.Pct(45) {
+			// the client retries the very same update after a storage failure, this time without a fault
+			o := last
+			o.F = fault{}
+			if o.K == "limit" {
+				o.Dflt = int64(math.Round(config.DefaultStoreLimit.GetDefaultStoreLimit([]storelimit.Type{storelimit.RemovePeer, storelimit.AddPeer}[o.LT]) * 1000))
+			}
+			step(o)
+			lastFailed = false
+			if w.R != nil {
+				w.R.Count("identical-retry-after-failed-write")
+			}
 			continue
 		}
 		o := gen(r, prev.Served, malformed && r.Pct(40))
@@ -1076,6 +1095,7 @@ func (w *world) runCase(in caseIn, r *rng.R, nops int, malformed bool, useEtcd b
 			o = w.narrow(r, o, prev.Served)
 		}
 		step(o)
+		last, lastFailed = o, o.F.On && strings.HasPrefix(strings.TrimPrefix(c.Obs[len(c.Obs)-1], "(Obs "), "RStorage")
 	}
 	return c
 }
